@@ -1,5 +1,6 @@
 CONSTANT MaxExt = 4
 CONSTANT MaxSG = 2
+CONSTANT MaxUx = 1
 CONSTANT MaxMeta = 2
 CONSTANT MaxFeed = 8
 CONSTANT MaxCache = 3
